@@ -68,6 +68,10 @@ def plan(tier):
     nmax = 3 if tier == "quick" else 4
     DOCS = corpus.docs(nmax, (None, 1000, "a"), ("a", "b"))
     DOCS += corpus.collision_pack() + share_pack() + corpus.merge_pack()
+    # integer keys without a text twin - negative, zero, positive - alone and
+    # above a further level (found by the key segment's integer reading)
+    DOCS += [("m", ((-1, "a"), (0, 1000), (1, ("m", (("a", 1000),))))),
+             ("m", (("a", ("m", ((-1, ("m", (("a", "a"),))), (1, 1000)))),))]
     voc = paths.vocab("c01-quick")
     PURE = []
     for p in paths.upto(voc, 2):
